@@ -204,6 +204,8 @@ class PseudoOperand(Operand):
             self.value = MultiByteValue(operand_string) if "," in operand_string else Value.create_from_str(operand_string, instruction)
         elif instruction.is_multi_word:
             self.value = MultiWordValue(operand_string) if "," in operand_string else Value.create_from_str(operand_string, instruction)
+        elif instruction.mnemonic == "END" and not operand_string:
+            self.value = NoneValue()
         else:
             self.value = NoneValue() if instruction.is_include else Value.create_from_str(operand_string, instruction)
 
